@@ -37,6 +37,9 @@ pub enum Act {
     CloneAndContinue,
     Preimage(u8, usize),
     Sign(u8, usize),
+    /// the plural adders: two operands in one call
+    AddIns(u8, u8),
+    AddOuts(u8, u8),
     /// replace the (still empty) object by one obtained through another constructor: 0 = parsed from a non-canonical
     /// wire encoding, 1 = JSON round trip, 2 = compact (CBOR) round trip, 3 = from_hex
     Load(u8),
@@ -172,6 +175,8 @@ fn act_kind(a: &Act) -> &'static str {
         Act::Preimage(..) => "sighash_preimage",
         Act::Sign(..) => "sign",
         Act::Load(_) => "load",
+        Act::AddIns(..) => "add_inputs",
+        Act::AddOuts(..) => "add_outputs",
     }
 }
 
@@ -232,6 +237,8 @@ fn apply(tx: &mut Transaction, a: &Act) -> Option<String> {
             let c = tx.clone();
             *tx = c;
         }
+        Act::AddIns(a, b) => tx.add_inputs(vec![operand_in(*a), operand_in(*b)]),
+        Act::AddOuts(a, b) => tx.add_outputs(vec![operand_out(*a), operand_out(*b)]),
         Act::Load(k) => match loaded(*k) {
             Some(t) => *tx = t,
             None => return Some(format!("C04/action=load/source={}/kind=constructor-refuses", k)),
@@ -322,6 +329,21 @@ impl Model for TxModel {
         if no < self.max_n {
             for k in 0..self.operands {
                 out.push(Act::AddOut(k));
+            }
+        }
+        // plural adders (two elements per call), over the first three operand kinds
+        if ni + 2 <= self.max_n {
+            for a in 0..3u8 {
+                for b in 0..3u8 {
+                    out.push(Act::AddIns(a, b));
+                }
+            }
+        }
+        if no + 2 <= self.max_n {
+            for a in 0..3u8 {
+                for b in 0..3u8 {
+                    out.push(Act::AddOuts(a, b));
+                }
             }
         }
         if ni > 0 {
